@@ -7,6 +7,18 @@ for l in open(os.path.join(V, "properties.jsonl")):
     p = json.loads(l); TITLES[p["id"]] = p["title"]
 
 CHECKS = {
+ "C11": dict(
+  technique="TLA+ spec (Recovery.tla) model-checked with TLC over every placement of updates into checkpoint/segments/WAL; TLC-exported layouts materialised with the real writers, recovered with the real RecoveryManager (+WAL) and a real node; results judged by TLC (RecoveryTrace.tla) against CrdtOps!Merge",
+  text="design level: for every placement (with duplication) the recovery procedure equals the merge of all placed updates and is idempotent, and the as-built WAL filter reproduces its counterexample; implementation level: every exported layout and thousands of random ones are built with the real SegmentWriter/CheckpointWriter/ManifestManager/WalRotator, and recover(), recover_with_wal() and apply_recovered_state (1x, 3x) must equal the merge computed by TLC",
+  note="update tables of 3-5 updates for the exhaustive part; kinds fixed per key; checkpoint coverage of skipped segments assumed consistent"),
+ "C12": dict(
+  technique="TLA+ spec (Streaming.tla) at object-store-call granularity model-checked with TLC (store image = crash image, all fault outcomes); TLC-exported workloads replayed on the real StreamingPersistence/Compactor over a scripted ObjectStore with a real recovery after every mutating call; traces validated by TLC (StreamTrace.tla)",
+  text="design level: ManifestSound, ConfirmedRecoverable, RecoveryStable, NothingSilentlyDropped hold in every state of the ideal protocol with a fault anywhere, and the as-built switches reproduce their counterexamples; implementation level: every idle state of the sequential model becomes a workload run on the real code, the real RecoveryManager::recover runs on a copy of the image after EVERY mutating store call, and TLC requires that recovery succeeds, the manifest is sound, the recovered state absorbs every confirmed delta and invents nothing, and a failed flush keeps its buffer",
+  note="fault model: put stores all / nothing / a prefix; rename atomic, possibly applied-but-reported-failed; scripted store implements the public ObjectStore trait; <=1 fault per exported workload, random workloads with faults in several operations"),
+ "C13": dict(
+  technique="TLA+ spec (Streaming.tla) with flush and compaction interleaved at store-call granularity and tombstone GC, model-checked with TLC; TLC-enumerated interleavings (495 schedules) gate the real Compactor and the real flush on a scripted ObjectStore; traces validated by TLC (StreamTrace.tla)",
+  text="design level: RecoveryStable and ManifestSound for the ideal protocol under every interleaving, and counterexamples for blind manifest overwrite, latest-wins compaction and GC ignoring uncompacted segments; implementation level: sequential compaction workloads with faults, tombstone-GC layouts with a segment above the size target, and all interleavings of the 4 flush calls with the 8 compaction calls are executed on the real code with a real recovery after every mutating call",
+  note="tombstone age in the code's own reading (Lamport time vs now - ttl under the harness clock); the two open findings are reported as KNOWN-FINDING"),
  "C07": dict(
   technique="TLA+ spec (Crdt.tla) model-checked with TLC; TLC-exported operation sequences replayed on the real ShardReplicaState/ReplicatedValue; recorded traces validated by TLC (CrdtTrace.tla)",
   text="TLC checks the three laws, in the observable projection, on every configuration of 3 replicas of one key reachable within the step bound; one operation sequence per distinct configuration is replayed on the real code and TLC validates every step (refinement of Merge) and the laws on the results of the real merge for all pairs and triples; random longer runs over all six CRDT kinds are validated the same way",
